@@ -239,8 +239,8 @@ func CompareModel(c *Ctx, m *ModelOut, o *Obs, jo JudgeOpts) string {
 		return "violated"
 	}
 	d := diags[0]
-	if d.Channel != "runtime" {
-		c.Violate(Violation{Why: "first diagnostic is not a runtime diagnostic", Expected: exp, Observed: describeObs(o), Signature: "diag-channel"})
+	if d.Channel == "static" {
+		c.Violate(Violation{Why: "first diagnostic is a lexical/syntax diagnostic, a runtime diagnostic was expected", Expected: exp, Observed: describeObs(o), Signature: "diag-channel"})
 		return "violated"
 	}
 	if d.Line != r.Fault.Line {
